@@ -144,7 +144,8 @@ U.fn('lexer.rs', '<Lexer as TokenStream>::text',
 U.fn('lexer.rs', '<Lexer as TokenStream>::take_error')
 U.fn('lexer.rs', 'Lexer::new',
      requires=[C('enc(text@).len() <= u32::MAX', BOTH)],
-     ensures=['ret.chars() == text@', 'ret.ci() == 0', '!ret.err()', 'ret.lwf()'])
+     ensures=['ret.chars() == text@', 'ret.ci() == 0', '!ret.err()', 'ret.lwf()', 'ret.wf()', 'ret.pos() == 0', 'ret.src() == enc(text@)', '(ret.bnds())(0)', 'ret.bnds() == (|p: nat| is_boundary(text@, p))'],
+     prologue='proof { assert(boff(text@, 0) == 0); }')
 U.fn('lexer.rs', 'Lexer::error',
      requires=[C('msg_text(msg).len() > 0', 'C02', name='lexer error messages are non-empty')],
      ensures=['ret == TokenKind::Error', 'final(self).err()', 'final(self).chars() == old(self).chars()', 'final(self).ci() == old(self).ci()'],
@@ -267,6 +268,7 @@ impl<T: TokenStream> ParserBase<T> {
     pub closed spec fn bv(&self) -> BuilderView { builder_view(&self.builder) }
     pub closed spec fn srcv(&self) -> Seq<u8> { self.token_stream.src() }
     pub closed spec fn ts(&self) -> T { self.token_stream }
+    pub closed spec fn bnd(&self) -> spec_fn(nat) -> bool { self.token_stream.bnds() }
     pub closed spec fn errs(&self) -> Seq<SyntaxError> { self.errors@ }
     pub closed spec fn after_err(&self) -> bool { self.is_after_error }
     pub closed spec fn bld(&self) -> GreenNodeBuilder<'static> { self.builder }
@@ -304,10 +306,18 @@ impl<T: TokenStream> ParserBase<T> {
     pub open spec fn inv(&self, saved: bool) -> bool { self.inv_s(saved) && self.inv_t(saved) }
     pub open spec fn same_shape(&self, o: &Self) -> bool {
         self.bv().parents =~= o.bv().parents && self.bv().n >= o.bv().n && self.srcv() == o.srcv()
-        && (self.ts().bnds() == o.ts().bnds())
+        && (self.bnd() == o.bnd())
     }
     /// a node may be closed
     pub open spec fn open_node(&self) -> bool { self.bv().parents.len() > 0 }
+    /// effect of `p.builder().start_node_at(c, ..)` (grammar/value.rs bypasses ParserBase::start_node_at)
+    pub proof fn lemma_builder_start_node_at(o: &Self, n: &Self, c: nat)
+        requires o.inv(false), n.same_but_builder(o),
+            builder_view(&n.bld()) == (BuilderView { parents: o.bv().parents.push(c), ..o.bv() }),
+            c <= o.bv().n, o.open_node() ==> c >= o.bv().parents.last(),
+        ensures n.inv(false), n.fuel() == o.fuel(), n.cur() == o.cur(), n.srcv() == o.srcv(), n.bnd() == o.bnd(), n.errs() == o.errs(),
+            n.bv() == (BuilderView { parents: o.bv().parents.push(c), ..o.bv() }),
+    {}
 }
 ''')
 U.fn('parser.rs', 'CompletedMarker::is_success', ensures=['ret == (*self is Success)'])
@@ -324,16 +334,21 @@ U.fn('parser.rs', 'ParserBase::new',
      requires=['token_stream.wf()', 'token_stream.pos() == 0', '(token_stream.bnds())(0)'],
      ensures=[C('ret.inv_s(false)', BOTH), C('ret.inv_t(false)', 'C01'), 'ret.srcv() == token_stream.src()',
               'ret.bv().parents.len() == 0', 'ret.bv().n == 0', 'ret.errs().len() == 0',
-              'ret.ts().bnds() == token_stream.bnds()'])
+              'ret.bnd() == token_stream.bnds()'],
+     prologue='proof { token_stream.lemma_len(); }')
 U.fn('parser.rs', 'ParserBase::finish',
      requires=['self.inv(false)', C('self.bv().n == 1 && self.bv().parents.len() == 0', BOTH, name='builder holds exactly one finished root node'),
-               'self.cur() == TokenKind::Eof'],
-     ensures=[C('green_text(&ret.0) == self.srcv()', 'C01'), C('ret.1@ == self.errs()', 'C02')])
+               C('self.cur() == TokenKind::Eof', 'C01', name='whole input consumed before finish')],
+     ensures=[C('green_text(&ret.0) == self.srcv()', 'C01'), C('ret.1@ == self.errs()', 'C02'),
+              C('forall|i: int| 0 <= i < ret.1@.len() ==> (#[trigger] ret.1@[i]).message@.len() > 0 && tr_start(ret.1@[i].range) <= tr_end(ret.1@[i].range) <= self.srcv().len() && (self.bnd())(tr_start(ret.1@[i].range)) && (self.bnd())(tr_end(ret.1@[i].range))', 'C02')])
 U.fn('parser.rs', 'ParserBase::builder',
-     ensures=['*ret == old(self).bld()', 'final(self).bld() == *final(ret)', 'final(self).same_but_builder(old(self))'])
+     ensures=['*ret == old(self).bld()', 'final(self).bld() == *final(ret)', 'final(self).same_but_builder(old(self))',
+              'builder_view(ret) == old(self).bv()', 'final(self).bv() == builder_view(final(ret))',
+              '*final(ret) == *ret ==> *final(self) == *old(self)',
+              'old(self).inv_s(false) && old(self).open_node() ==> builder_view(ret).parents.last() <= builder_view(ret).n'])
 NODE_FRAME = ['final(self).fuel() == old(self).fuel()', 'final(self).cur() == old(self).cur()', 'final(self).srcv() == old(self).srcv()',
               'final(self).bv().text == old(self).bv().text', 'final(self).errs() == old(self).errs()',
-              'final(self).ts().bnds() == old(self).ts().bnds()']
+              'final(self).bnd() == old(self).bnd()']
 U.fn('parser.rs', 'ParserBase::start_node', requires=PINV,
      ensures=INV_ENS + ['final(self).bv().parents == old(self).bv().parents.push(old(self).bv().n)', 'final(self).bv().n == old(self).bv().n'] + NODE_FRAME)
 U.fn('parser.rs', 'ParserBase::start_node_at',
@@ -343,7 +358,7 @@ U.fn('parser.rs', 'ParserBase::start_node_at',
 U.fn('parser.rs', 'ParserBase::finish_node',
      requires=PINV + [C('old(self).bv().parents.len() > 0', BOTH, name='finish_node needs an open node')],
      ensures=INV_ENS + ['final(self).bv().parents == old(self).bv().parents.drop_last()', 'final(self).bv().n == old(self).bv().parents.last() + 1'] + NODE_FRAME)
-U.fn('parser.rs', 'ParserBase::checkpoint', ensures=['cp_val(ret) == self.bv().n'])
+U.fn('parser.rs', 'ParserBase::checkpoint', ensures=['cp_val(ret) == self.bv().n', 'self.inv_s(false) && self.open_node() ==> self.bv().parents.last() <= cp_val(ret)'])
 U.fn('parser.rs', 'ParserBase::peek', ensures=['ret == self.cur()'])
 U.fn('parser.rs', 'ParserBase::at', ensures=['ret == (self.cur() == kind)'])
 U.fn('parser.rs', 'ParserBase::at_set', ensures=['ret == set@.contains(self.cur())'])
@@ -353,7 +368,8 @@ U.fn('parser.rs', 'ParserBase::error',
      ensures=['final(self).errs().len() == old(self).errs().len() + 1', 'final(self).after_err()', 'final(self).same_but_errors(old(self))',
               C('final(self).errs_ok()', 'C02', name='recorded error is well-formed'),
               'forall|s: bool| old(self).inv_s(s) ==> final(self).inv_s(s)', 'forall|s: bool| old(self).inv_t(s) ==> final(self).inv_t(s)',
-              'final(self).fuel() == old(self).fuel()', 'final(self).bv() == old(self).bv()', 'final(self).cur() == old(self).cur()', 'final(self).ts() == old(self).ts()'],
+              'final(self).fuel() == old(self).fuel()', 'final(self).bv() == old(self).bv()', 'final(self).cur() == old(self).cur()', 'final(self).ts() == old(self).ts()',
+              'final(self).srcv() == old(self).srcv()', 'final(self).bnd() == old(self).bnd()'],
      prologue='proof { self.token_stream.lemma_len(); ax_usize_to_text_size(self.current_range.start); ax_usize_to_text_size(self.current_range.end); }')
 EAT_LIKE = INV_ENS + [SHAPE, FUEL_LE]
 U.fn('parser.rs', 'ParserBase::error_and_eat',
@@ -383,11 +399,11 @@ U.fn('parser.rs', 'ParserBase::save', requires=PINV,
      ensures=[C('final(self).inv_s(true)', BOTH), C('final(self).inv_t(true)', 'C01', name='save pushes exactly the look-ahead token text'),
               'final(self).cur() == old(self).cur()', 'final(self).fuel() == old(self).fuel()',
               'final(self).bv().parents == old(self).bv().parents', 'final(self).bv().n == old(self).bv().n + 1', 'final(self).srcv() == old(self).srcv()',
-              'final(self).ts().bnds() == old(self).ts().bnds()'],
+              'final(self).bnd() == old(self).bnd()'],
      prologue='proof { self.token_stream.lemma_len(); }')
 U.fn('parser.rs', 'ParserBase::lex', requires=['old(self).inv(true)'],
      ensures=INV_ENS + ['final(self).bv() == old(self).bv()', 'final(self).srcv() == old(self).srcv()',
-                        'final(self).ts().bnds() == old(self).ts().bnds()',
+                        'final(self).bnd() == old(self).bnd()',
                         C('old(self).cur() != TokenKind::Eof ==> final(self).fuel() < old(self).fuel()', 'C02', name='lex makes progress'),
                         FUEL_LE])
 U.fn('parser.rs', 'ParserBase::skip', requires=PINV,
